@@ -276,9 +276,10 @@ var standinHostPathHosts = []string{"a.b", "c.b", "n-3", "n-3:80", "a.w3", "a.b"
 
 var standinHostPathProbes = []string{"/1/bar", "/1/foo", "/1/baz", "/", "/1/2/q", "/1"}
 
-var standinDeepHostPool = []string{"a.b.com/", "a.{s}.com/", "{s}.{t}.com/", "/", "a.b.com/a", "{s}.{t}.com/a", "a.b.{u}/"}
+// the last two extend a complete hostname by a byte that sorts before '/' ('.' and '-'): the path child of a.b.com is then not its first edge
+var standinDeepHostPool = []string{"a.b.com/", "a.{s}.com/", "{s}.{t}.com/", "/", "a.b.com/a", "{s}.{t}.com/a", "a.b.{u}/", "a.b.com.au/", "a.b.com-x.net/"}
 
-var standinDeepHosts = []string{"a.b.com", "ax.c.com", "a.c.com", "x.y.com", "a.b.comx", "b.a.com", "a.b.org", "a.b.com", "x.b.com"}
+var standinDeepHosts = []string{"a.b.com", "ax.c.com", "a.c.com", "x.y.com", "a.b.comx", "b.a.com", "a.b.org", "a.b.com:80", "x.b.com", "a.b.com.au", "a.b.com-x.net"}
 
 var standinHostPool = []string{
 	"h.com/", "h.com/a", "h.com/{x}", "{s}.com/a", "{s}.com/{x}", "a.{s}.com/", "h.com/a/", "{s}.h.com/a", "a{s}.com/b",
